@@ -9,7 +9,7 @@
 From Coq Require Import String Ascii List Bool Arith ZArith.
 Import ListNotations.
 Require Import PyBase PyStr Lex LexCoverFacts Symbols Split SplitFacts SplitChunks SplitChunksFacts SplitBalanceFacts Merge ParseEq ParseEqFacts ParseModel ParseModelFacts ParseModelExamples
-               ParseContribFacts ParseContribExamples FormatDecideFacts SplitInsertFacts ParseOracleFacts SplitIdemFacts ParseEqYieldFacts MergeUniqueFacts ParseCountFacts.
+               ParseContribFacts ParseContribExamples FormatDecideFacts SplitInsertFacts ParseOracleFacts SplitIdemFacts ParseEqYieldFacts MergeUniqueFacts ParseCountFacts SplitFenceGuardFacts.
 Open Scope string_scope.
 
 Section C13.
@@ -67,7 +67,7 @@ Section C13.
   (* ---- "no statement is silently discarded: each one contributes exactly one equation or verbatim block" ----
      model_chunks s = the buffers the splitting loop completes (lists of comment-stripped physical lines);
      n_emitted = what build_model_definition emits.  For EVERY input string, oracle and check_syntax setting:
-     accepted + no fence left open + the three guards that exclude the kept findings (one name on each left-hand
+     accepted + the three guards that exclude the kept findings (since fix 85765d5 no guard about fences is needed) (one name on each left-hand
      side, not called as a function in its own statement; no name given an equation twice)  ==>
      the script's lines are exactly the chunks in order, the statements are exactly the non-blank chunks, and the
      built model has exactly one equation / verbatim block per statement. *)
@@ -76,7 +76,6 @@ Section C13.
     (forall st, In st (fst (split_M s)) ->
        backticked st = true \/ exists terms y, parse_equation_terms st = Ret terms /\ lhs_guard y terms = true) ->
     NoDup (emit_names (concat (stmt_symbols s))) ->
-    ends_in_open_fence s = false ->
     model_lines s = concat (model_chunks s) /\
     fst (split_M s) = map join_nl (filter nonblank_chunk (model_chunks s)) /\
     n_emitted out = length (filter nonblank_chunk (model_chunks s)).
@@ -127,6 +126,27 @@ Section C13.
     parse_model_M chk cs s = POk out ->
     n_emitted out = count_new [] (emit_names (concat (stmt_symbols s))) + length (filter backticked (fst (split_M s))).
   Proof. exact (model_equation_count chk cs s out). Qed.
+
+  (* the exact decidable guard: an accepted model has one equation / verbatim block per statement IF AND ONLY IF the number
+     of distinct names given an equation equals the number of non-verbatim statements (exact_count_guard, a boolean) *)
+  Theorem C13_statement_count_iff cs s out :
+    parse_model_M chk cs s = POk out ->
+    (n_emitted out = length (fst (split_M s)) <->
+     Nat.eqb (count_new [] (emit_names (concat (stmt_symbols s)))) (length (filter (fun st => negb (backticked st)) (fst (split_M s)))) = true).
+  Proof. exact (statement_count_iff chk cs s out). Qed.
+
+  (* own errors only, under a SYNTACTIC condition on the script (fences_clean_model: every line that starts with ```
+     consists of backticks only and is met with the bracket counter at zero): then every statement holds an "=" or is
+     verbatim code, so nothing but ParserError / SymbolError / IndentationError can come out.  Both excluded shapes do
+     raise ValueError (C13_fences_clean_needed). *)
+  Theorem C13_own_errors_when_fences_clean cs s :
+    (forall c, chk c <> ChkOtherExn) -> fences_clean_model s = true ->
+    match parse_model_M chk cs s with
+    | POk _ => True
+    | PUnmodelled => True
+    | PErr e => e = ParserError \/ e = SymbolError \/ e = IndentationError
+    end.
+  Proof. exact (own_errors_when_fences_clean chk cs s). Qed.
 End C13.
 Print Assumptions C13_every_exception_classified.
 Print Assumptions C13_own_errors_only.
@@ -142,6 +162,8 @@ Print Assumptions C13_blank_line_between_statements_irrelevant.
 Print Assumptions C13_oracle_sees_only_generated_codes.
 Print Assumptions C13_names_unique.
 Print Assumptions C13_model_equation_count.
+Print Assumptions C13_statement_count_iff.
+Print Assumptions C13_own_errors_when_fences_clean.
 
 Theorem C13_count_new_is_distinct_count l seen :
   exists l', NoDup l' /\ (forall x, In x l' <-> In x l /\ ~ In x seen) /\ count_new seen l = length l'.
@@ -162,16 +184,14 @@ Theorem C13_statement_emits_one st syms :
 Proof. exact (statement_emits_one st syms). Qed.
 Print Assumptions C13_statement_emits_one.
 
-(* the splitting loop, for EVERY input string on which it raises nothing: the lines are the completed chunks followed
-   by what is still buffered; the statements are the non-blank chunks; the bracket counter ends at zero; and lines can
-   be left in the buffer only behind a fence line that was never closed (finding #24 is the only way to lose a line) *)
+(* the splitting loop, for EVERY input string on which it raises nothing: it ends with an empty buffer, the bracket counter
+   at zero and no fence open; the comment-stripped lines are exactly the completed chunks in order (no line is lost) and
+   the statements are the non-blank chunks *)
 Theorem C13_accepted_lines_partition s ys :
   split_M s = (ys, None) ->
-  exists stf, final_state s0 (model_lines s) = Some stf /\ unmatched stf = 0 /\
-    model_lines s = (concat (model_chunks s) ++ rev (buffer stf))%list /\
-    ys = map join_nl (filter nonblank_chunk (model_chunks s)) /\
-    (buffer stf = [] \/
-     (complete stf = false /\ exists l b, rev (buffer stf) = l :: b /\ startswith "```" l = true)).
+  exists stf, final_state s0 (model_lines s) = Some stf /\ unmatched stf = 0 /\ complete stf = true /\ buffer stf = [] /\
+    model_lines s = concat (model_chunks s) /\
+    ys = map join_nl (filter nonblank_chunk (model_chunks s)).
 Proof. exact (accepted_lines_partition s ys). Qed.
 Print Assumptions C13_accepted_lines_partition.
 
@@ -249,10 +269,18 @@ Print Assumptions C13_single_statement_check_never_fires.
 Theorem C13_no_statement_discarded_satisfiable :
   (exists out, parse_model_nocheck ordinary = POk out /\ n_emitted out = 3) /\
   (forall st, In st (fst (split_M ordinary)) -> stmt_guard st) /\
-  NoDup (emit_names (concat (stmt_symbols ordinary))) /\
-  ends_in_open_fence ordinary = false.
+  NoDup (emit_names (concat (stmt_symbols ordinary))).
 Proof. exact ordinary_hyps. Qed.
 Print Assumptions C13_no_statement_discarded_satisfiable.
+
+Theorem C13_fences_clean_implies_guard s : fences_clean_model s = true -> no_eqless_statement s = true.
+Proof. exact (fences_clean_no_eqless s). Qed.
+Print Assumptions C13_fences_clean_implies_guard.
+Theorem C13_fences_clean_needed :
+  fences_clean_model ordinary = true /\ fences_clean_model eqless_fence = false /\ fences_clean_model eqless_fence2 = false /\
+  parse_model_nocheck eqless_fence2 = PErr ValueError /\ no_eqless_statement eqless_fence2 = false.
+Proof. exact fences_clean_values. Qed.
+Print Assumptions C13_fences_clean_needed.
 
 (* the full statement "only the parser's own errors" is FALSE of the faithful model (new finding) *)
 Theorem C13_own_errors_refuted :
@@ -260,14 +288,29 @@ Theorem C13_own_errors_refuted :
 Proof. exact (ex_intro _ eqless_fence (conj eqless_fence_value_error eqless_fence_outside_guard)). Qed.
 Print Assumptions C13_own_errors_refuted.
 
-(* #24: an unclosed ``` fence silently drops every later statement *)
-Theorem C13_unclosed_fence_drops_statements_refuted :
-  exists s, parse_model_nocheck s = parse_model_nocheck "Y = X" /\ accepted_emits s = Some 1 /\ n_statements s = 1 /\
-            final_state s0 (model_lines s) = Some (mkS 0 false ["Z = W"; "foo = 1"; "```"]).
-Proof. exact (ex_intro _ unclosed_fence unclosed_fence_drops_statements). Qed.
-Print Assumptions C13_unclosed_fence_drops_statements_refuted.
+(* #24 REPAIRED by fix 85765d5 (was C13_unclosed_fence_drops_statements_refuted): a script whose last fence is never
+   closed is ALWAYS rejected.  The splitter ends with ParserError whatever it yielded before; parse_model never accepts
+   such a script, for any oracle and check_syntax setting; and when the statements before the fence raise nothing the
+   exception is that ParserError (it comes before the problem-statement report and the merge). *)
+Theorem C13_unclosed_fence_is_parser_error s : ends_in_open_fence s = true -> snd (split_M s) = Some ParserError.
+Proof. exact (unclosed_fence_is_parser_error s). Qed.
+Print Assumptions C13_unclosed_fence_is_parser_error.
+Theorem C13_unclosed_fence_never_accepted chk cs s out : ends_in_open_fence s = true -> parse_model_M chk cs s <> POk out.
+Proof. exact (unclosed_fence_never_accepted chk cs s out). Qed.
+Print Assumptions C13_unclosed_fence_never_accepted.
+Theorem C13_unclosed_fence_parser_error chk cs s r :
+  ends_in_open_fence s = true -> parse_statements chk cs (fst (split_M s)) [] false = POk r ->
+  parse_model_M chk cs s = PErr ParserError.
+Proof. exact (unclosed_fence_parser_error chk cs s r). Qed.
+Print Assumptions C13_unclosed_fence_parser_error.
+(* the hypotheses hold on the former witness, which is now rejected *)
+Theorem C13_unclosed_fence_instance :
+  ends_in_open_fence unclosed_fence = true /\ parse_model_nocheck unclosed_fence = PErr ParserError /\
+  parse_model_nocheck "```" = PErr ParserError.
+Proof. exact (conj (proj1 unclosed_fence_now_rejected) (conj (proj1 unclosed_fence_is_error) (proj1 (proj2 unclosed_fence_is_error)))). Qed.
+Print Assumptions C13_unclosed_fence_instance.
 
-(* "each statement contributes exactly one equation": three more ways it fails in the faithful model *)
+(* "each statement contributes exactly one equation": the three ways it still fails in the faithful model *)
 Theorem C13_duplicate_statements_merge_refuted :
   exists s, n_statements s = 2 /\ accepted_emits s = Some 1.
 Proof. exact (ex_intro _ duplicate_statements duplicate_statements_merge). Qed.
